@@ -12,7 +12,7 @@ RULE = ("Mode M: EVERY system of the named spaces (same as C11: all coefficient/
         "valuations of the columns with non-zero coefficient. non-trivial = distinct system where a bound was tightened and solutions exist")
 ASSUMPTIONS = ["variable bounds within the library's default integer range (stated)", "oracle = brute force (numpy int64)"]
 BOUNDS = {"quick": "1x1 1x2 1x3 2x1 2x2 2x2b 2x3q 3x2q 1x2w 2x2p big (coefficients up to +-128 with exact-multiple constants; strictly positive / strictly negative boxes, coefficients up to 3) + abc/explicit polyhedra", "thorough": "quick + 2x3 3x2 2x2T 1x3T 2x3T 3x3T + abt, diamond polyhedra"}
-QUICK = ["1x1", "1x2", "1x3", "2x1", "2x2", "2x2b", "2x3q", "3x2q", "1x2w", "2x2p", "big"]
+QUICK = ["1x1", "1x2", "1x3", "2x1", "2x2", "2x2b", "2x3q", "3x2q", "1x2w", "2x2p", "big", "narrow"]
 THOROUGH = QUICK + ["2x3", "3x2", "2x2T", "1x3T", "2x3T", "3x3T"]
 
 
